@@ -259,8 +259,49 @@ class PullOffSuite(PairedSuite):
                               "look_to": fstr(look_to), "iv": fstr(iv), "opening": opening,
                               "humans": sorted(humans), "others_early": others_early}}
 
+        yield from self.setting_scenarios(rng, tier)
+
+    def setting_scenarios(self, rng, tier):
+        """server mode: the conductor says Look to, moves the speed slider (to a faster, the same or a slower speed) and
+        only then pulls off - nothing may be struck before that bell, and the rest of the first row is placed from its
+        actual strike at the speed now configured"""
+        for _ in range(24 if tier == "quick" else 240):
+            n = rng.choice([4, 6, 8])
+            others = set(rng.sample(range(2, n + 1), rng.randint(0, n - 2)))
+            humans = {1} | others
+            look_to = Fraction(rng.randint(15, 60), 100) + Fraction(1, 1000)
+            evs = [ev(0, "global", [True] * n), ev(Fraction(11, 1000), "user_entered", 1, "Wheatley"),
+                   ev(Fraction(12, 1000), "user_entered", 11, "Alice")]
+            for b in range(1, n + 1):
+                evs.append(ev(Fraction(13, 1000) + Fraction(b, 100000), "assign", b, 11 if b in humans else 1))
+            evs.append(ev(Fraction(4, 100), "row_gen", {"type": "method", "stage": n, "notation": "x1"}))
+            evs.append(ev(look_to, "call", "Look to"))
+            val = rng.choice([150, 180, 210, 240])
+            t_set = look_to + Fraction(rng.randint(50, 250), 100) + Fraction(rng.randint(1, 99), 10 ** 5)
+            evs.append(ev(t_set, "setting", [["peal_speed", val]]))
+            t_lead = look_to + Fraction(rng.choice([350, 450, 700]), 100) + Fraction(rng.randint(1, 99), 10 ** 5)
+            iv = blow_interval(val, n)
+            evs.append(ev(t_lead, "ring", 1))
+            for p in range(1, n):
+                if p + 1 in humans:
+                    evs.append(ev(t_lead + iv * p + Fraction(rng.randint(1, 99), 10 ** 5), "ring", p + 1))
+            rh = {"kind": "wait", "inertia": 1.0, "peal_speed": 180, "gap": 1.0, "max": 15}
+            a = base({"kind": "placeholder"}, n, rh, sorted_events(evs), t_lead + iv * (n + 2) + Fraction(1, 3000))
+            a.update({"name": "Wheatley", "instance": 5, "stop_at_rounds": False})
+            yield {"a": a, "oracle": {"n": n, "leader": 1, "human_leads": True, "t_lead": fstr(t_lead), "look_to": fstr(look_to),
+                                      "iv": fstr(iv), "opening": list(range(1, n + 1)), "humans": sorted(humans),
+                                      "others_early": False, "setting": [fstr(t_set), val]}}
+
     def cases(self, rng, tier):
         yield from self.scenarios(rng, tier)
+
+    def oracle_C19(self, case, out):
+        """a speed change that arrives while everybody waits for the human leader bends nothing yet: no strike before the
+        leader, the first row at the new speed from the leader's strike"""
+        if "setting" not in case["oracle"]:
+            return None
+        msg = self.oracle_C15(case, out)
+        return msg and f"peal speed set to {case['oracle']['setting'][1]} while waiting for the pull-off: {msg}"
 
     def oracle_C15(self, case, out):
         o = out["a"]
@@ -294,6 +335,14 @@ class PullOffSuite(PairedSuite):
                 return (f"place {p} of the first row struck {float(mine[0] - t_lead):.4f}s after the leader, "
                         f"expected {float(iv * p):.4f}s")
         return None
+
+
+class PullOffSettingSuite(PullOffSuite):
+    """only the sessions in which the speed is changed while waiting for the pull-off (C19)"""
+    name = "pull_off_setting"
+
+    def scenarios(self, rng, tier):
+        yield from self.setting_scenarios(rng, tier)
 
 
 # ============================================================================= C13 / C12 / C14: sessions with humans on a line
